@@ -9,6 +9,12 @@ two recognised shapes it has (fail-closed on anything else):
       self._cv.notify_all()
       -> feed_sets_event_always = false   (event set only when the buffer is non-empty afterwards)
 
+It also enforces, statically and fail-closed, the lock discipline the model's atomic actions rest on:
+in every method of BufferedPipe (other than __init__ and the two _buffer_* helpers) each statement that
+touches self._buffer / self._closed / self._event (directly or through the helpers) lies inside a
+`with self._lock:` block or inside the `try:` that immediately follows `self._lock.acquire()` and
+releases the lock in its `finally:`.  (The harness checks the same thing dynamically.)
+
 Everything else about the class is tied by the scheduler-driven correspondence in harness/c26.py.
 """
 import ast
@@ -24,12 +30,71 @@ def _calls(node, attr):
     return out
 
 
+STATE = ("_buffer", "_closed", "_event")
+HELPERS = ("_buffer_frombytes", "_buffer_tobytes")
+
+
+def _is_self_attr(n, names):
+    return (isinstance(n, ast.Attribute) and isinstance(n.value, ast.Name) and n.value.id == "self"
+            and n.attr in names)
+
+
+def _is_lock_call(stmt, meth):
+    return (isinstance(stmt, ast.Expr) and isinstance(stmt.value, ast.Call)
+            and isinstance(stmt.value.func, ast.Attribute) and stmt.value.func.attr == meth
+            and _is_self_attr(stmt.value.func.value, ("_lock", "_cv")))
+
+
+def _touches(node):
+    return [n for n in ast.walk(node) if _is_self_attr(n, STATE + HELPERS)]
+
+
+def _unlocked_touches(stmts):
+    """Touches of shared state in a statement list that are not inside a locked region."""
+    bad = []
+    prev = None
+    for st in stmts:
+        locked = False
+        if isinstance(st, (ast.With,)) and any(_is_self_attr(i.context_expr, ("_lock", "_cv")) for i in st.items):
+            locked = True
+        if (isinstance(st, ast.Try) and prev is not None and _is_lock_call(prev, "acquire")
+                and any(_is_lock_call(f, "release") for f in st.finalbody)):
+            locked = True
+        if not locked:
+            blocks = [getattr(st, f) for f in ("body", "orelse", "finalbody") if isinstance(getattr(st, f, None), list)]
+            blocks += [h.body for h in getattr(st, "handlers", [])]
+            if blocks and not isinstance(st, (ast.FunctionDef, ast.ClassDef)):
+                # compound statement: its own header expressions, then its blocks
+                for f in ("test", "iter", "target"):
+                    if getattr(st, f, None) is not None:
+                        bad += _touches(getattr(st, f))
+                for i in getattr(st, "items", []):
+                    bad += _touches(i)
+                for b in blocks:
+                    bad += _unlocked_touches(b)
+            else:
+                bad += _touches(st)
+        prev = st
+    return bad
+
+
+def check_lock_discipline(cls):
+    for fn in cls.body:
+        if not isinstance(fn, ast.FunctionDef) or fn.name in ("__init__",) + HELPERS:
+            continue
+        bad = _unlocked_touches(fn.body)
+        if bad:
+            raise ValueError("BufferedPipe.%s touches self.%s at line %d outside the region protected by self._lock"
+                             % (fn.name, bad[0].attr, bad[0].lineno))
+
+
 def generate(repo):
     path = os.path.join(repo, "paramiko", "buffered_pipe.py")
     tree = ast.parse(open(path).read())
     cls = [n for n in tree.body if isinstance(n, ast.ClassDef) and n.name == "BufferedPipe"]
     if len(cls) != 1:
         raise ValueError("class BufferedPipe not found")
+    check_lock_discipline(cls[0])
     feed = [n for n in cls[0].body if isinstance(n, ast.FunctionDef) and n.name == "feed"]
     if len(feed) != 1:
         raise ValueError("BufferedPipe.feed not found")
